@@ -844,19 +844,42 @@ class Node:
                 return  # already removed as descendant of another clone
             assert not self.is_clone()
 
-        if keep_children:
-            for c in self.children.copy():
-                c.move_to(self._parent, before=self)
-        else:
-            self.remove_children()
-
         pc = self._parent._children
         # NOTE: `list.remove()` checks for equality ('=='), not identity!
-        del pc[Node.get_index(self)]  # type: ignore
+        idx = Node.get_index(self)
+        if keep_children:
+            self._check_keep_children([self])
+            # Replace this node by its children
+            children = self.children
+            for c in children:
+                c._parent = self._parent
+            pc[idx : idx + 1] = children  # type: ignore
+            self._children = None
+        else:
+            self.remove_children()
+            del pc[idx]  # type: ignore
         if not pc:  # store None instead of `[]`
             pc = self._parent._children = None
 
         self._tree._unregister(self)
+
+    @staticmethod
+    def _check_keep_children(nodes: list[Node]) -> None:
+        """Raise if replacing `nodes` by their children creates duplicate siblings."""
+
+        def _kept(parent: Node) -> list[Node]:
+            res = []
+            for c in parent.children:
+                if any(c is n for n in nodes):
+                    res.extend(_kept(c))
+                else:
+                    res.append(c)
+            return res
+
+        for node in nodes:
+            data_ids = [c._data_id for c in _kept(node._parent)]
+            if len(set(data_ids)) != len(data_ids):
+                raise UniqueConstraintError("Node.data already exists in parent")
 
     def remove_children(self) -> None:
         """Remove all children of this node, making it a leaf node."""
